@@ -169,7 +169,7 @@ def num_machines_of(spec):
 
 def gen_instance(rng: random.Random, *, max_jobs=5, max_machines=4, max_ops=4,
                  allow_empty_jobs=False, flexible=None, zero=None, big=False,
-                 min_jobs=1, min_ops=None, regular=False, recirculation=True, huge=False):
+                 min_jobs=1, min_ops=None, regular=False, recirculation=True, huge=False, p_all_huge=0.06):
     """Structured random instance (see DESIGN 3.3)."""
     nj = rng.randint(min_jobs, max_jobs)
     nm = rng.randint(1, max_machines)
@@ -182,7 +182,7 @@ def gen_instance(rng: random.Random, *, max_jobs=5, max_machines=4, max_ops=4,
     zero_heavy = bool(zero) and rng.random() < 0.2
     # "all huge": every duration sits next to 2^24 or 2^53 (or is tiny), so sums and differences of times are
     # exact as Python ints but not as float32 / float64
-    huge_base = rng.choice([1 << 24, 1 << 53]) if huge and rng.random() < 0.06 else None
+    huge_base = rng.choice([1 << 24, 1 << 53]) if huge and rng.random() < p_all_huge else None
     lo_ops = 0 if allow_empty_jobs else 1
     if min_ops is not None:
         lo_ops = min_ops
